@@ -77,7 +77,7 @@ def unmapI (s : Sc) (y : I) : I := I.hull (unmapPt s y.lo) (unmapPt s y.hi)
 def maxFloat : Rat := pow2 1024
 def inI (v : V) (a : I) : Bool :=
   match v with
-  | .fin q => a.lo ≤ q && q ≤ a.hi
+  | .fin q => a.lo - pow2 (-1073) ≤ q && q ≤ a.hi + pow2 (-1073)      -- float underflow: one subnormal step
   | .pinf => a.hi ≥ maxFloat
   | .ninf => a.lo ≤ -maxFloat
   | .nan => false
